@@ -926,4 +926,37 @@ theorem nonvacuous_resolve_string_noPrefix :
       resolveTop (relex d) 1 [(lex d ['b'], lex d ['X'])] (lex d s) = .ok (lex d s) := by
   decide +kernel
 
+/-- Lexing is a homomorphism behind a string `s₁` that lexes to clean tokens (no lone first
+    character of a delimiter; `d.LexOK` = non-empty delimiters with three different first
+    characters): `lex (s₁ ++ s₂) = lex s₁ ++ lex s₂`. -/
+theorem lex_append_of_clean {d : Delims} (hd : d.LexOK) (s₁ s₂ : List Char) (h : Over (CleanTok d) (lex d s₁)) :
+    lex d (s₁ ++ s₂) = lex d s₁ ++ lex d s₂ := lex_append_of_clean' hd s₁ s₂ h
+
+/-- Resolve(s₁ + s₂) = Resolve(s₁) ⊕ Resolve(s₂) at STRING level: `resolve_append_balanced` for
+    the lexed concatenation of two strings, `s₁` lexing to a clean, delimiter-balanced token list. -/
+theorem resolve_string_append_balanced {d : Delims} (hd : d.LexOK) {s₁ s₂ : List Char} {seen : List Toks}
+    {r₁ r₂ : Res} (hc : Over (CleanTok d) (lex d s₁)) (hb : Balanced (lex d s₁))
+    (h₁ : Resolves norm tbl (lex d s₁) seen r₁) (h₂ : Resolves norm tbl (lex d s₂) seen r₂) :
+    Resolves norm tbl (lex d (s₁ ++ s₂)) seen (r₁.seq r₂) := by
+  rw [lex_append_of_clean hd s₁ s₂ hc]
+  exact resolve_append_balanced norm tbl hb h₁ h₂
+
+/-- the cleanliness hypothesis of `lex_append_of_clean` is needed: `"$" ++ "{a}"` — the balanced
+    (prefix-free) `$` glues with the `{` of the second string into a prefix token -/
+theorem lex_append_needs_clean_counterexample :
+    let d : Delims := ⟨['$', '{'], ['}'], [':']⟩
+    d.LexOK ∧ Balanced (lex d ['$']) ∧ ¬ Over (CleanTok d) (lex d ['$']) ∧
+      lex d (['$'] ++ ['{', 'a', '}']) = [.pre, .ch 'a', .suf] ∧
+      lex d ['$'] ++ lex d ['{', 'a', '}'] = [.ch '$', .ch '{', .ch 'a', .suf] := by
+  decide +kernel
+
+/-- the hypotheses of `resolve_string_append_balanced` on `x${a}{` (a `{` that does not follow a
+    `$` is a clean character) -/
+theorem nonvacuous_string_append :
+    let d : Delims := ⟨['$', '{'], ['}'], [':']⟩
+    let s₁ := ['x', '$', '{', 'a', '}', '{']
+    d.LexOK ∧ Over (CleanTok d) (lex d s₁) ∧ Balanced (lex d s₁) ∧
+      lex d s₁ = [.ch 'x', .pre, .ch 'a', .suf, .ch '{'] := by
+  decide +kernel
+
 end Ytk.C11
